@@ -204,6 +204,15 @@ def _fit_level(ctx, N):
         ctx.no_shape_conflicts("Shape", f"{cfg1}: whole fit", I1, lo1, site, cfg1)
         if axis == 0:
             ctx.shape_is("R-BUFFERS", f"{cfg1}: y_selected_ holds one column", ctx.attr(s1, o1, "y_selected_"), ("S", 1), site, cfg1)
+        # the PCov variants see the target as an (n, 1) matrix (they form y y^T)
+        if cname == "PCovCUR":
+            ctx.shape_is("R-BUFFERS", f"{cfg1}: the target residual is an (n, 1) matrix", ctx.attr(s1, o1, "y_current_"), ("N", 1), site, cfg1)
+        if cname == "PCovFPS":
+            y2 = V("arr", T("reshape1", T("sym", "y"), T("dim", Dim.of("N")), T("const", __import__("fractions").Fraction(1))), shape=(Dim.of("N"), Dim(1)), orig=frozenset([("fresh",)]), loc=0)
+            I2r, s2r = ctx.interp(), State()
+            fn = "skmatter.utils.pcovr_covariance" if axis == 1 else "skmatter.utils.pcovr_kernel"
+            refd = ctx.call_func(I2r, s2r, fn, ctor1["mixing"], arr("X", "N", "M"), y2)
+            ctx.compare("R-BUFFERS", f"{cfg1}: PCov distance matrix built from the target as an (n, 1) matrix", N, ctx.attr(s1, o1, "pcovr_distance_"), refd, site, cfg1)
     for cq, pkg, axis, S in CLASSES:
         cls = P.cls(cq)
         cname = cls.name
